@@ -49,9 +49,8 @@ for d in sorted(glob.glob('seeded/*/patch.diff')):
     exp = {own: 1}
     if d in DECLINED and os.path.exists(d):
         exp = {DECLINED[d][0]: 2}
-    for q, c in matrix.get(name + '/patch.diff', {}).items():
-        if c == 1:
-            exp[q] = 1
+    # (cross-detection by other properties is recorded in seeded/MATRIX.txt for the record; the replay enforces the own property
+    # only, so that a later sharpening of a neighbouring rule does not turn into a spurious mismatch)
     idx[d] = exp
 # behaviour-preserving refactorings written by independent sub-agents: silent for the properties whose code they touch
 AREA = {'aes': ['C02', 'C03', 'C09', 'C10', 'C14'], 'cli': ['C12', 'C15', 'C16', 'C17'], 'driver': ['C02', 'C05', 'C06', 'C08', 'C11', 'C12', 'C13', 'C15', 'C18'],
